@@ -20,7 +20,7 @@ RULE = ('Engine A: lattice of experiment frames with cooldown: 4 shapes x n_pre 
         'series; counterfactual + pointwise = observed treatment series; pre-period pointwise = reference OLS residuals; last '
         'cumulative row = incremental effect and the reference quantiles; series cover exactly the analysed dates. Known '
         'finding K1 is keyed by the REFERENCE condition "cumulative scale of the closed-form posterior is not non-decreasing" '
-        '(equivalent to the failure, see DESIGN.md). Non-trivial = every frame x metric; distinct = distinct case.')
+        '(strictly: a plateau counts; equivalent to the failure, see DESIGN.md). Non-trivial = every frame x metric; distinct = distinct case.')
 ASSUMPTIONS = ['frames whose pre-period fit has exactly zero residual variance (posterior scale 0) are dropped and counted',
                'scope S1: levels > 0.5 only (with tails=1 and level <= 0.5 the documented lower bound lies above the median)',
                'value lattice as in C06/C07; comparisons at 1e-8 absolute / 1e-9 relative']
@@ -82,7 +82,9 @@ def run_case(case):
     if not fixed_cost and not degenerate:
         post = rstats.tbr_posterior(xs[:npre], ys[:npre], xs[npre:], ys[npre:])
         sc_ = np.concatenate([[0.0], post['scale']])
-        mono = bool(np.all(np.diff(sc_) >= -1e-12 * sc_[1:].max()))
+        # K1 condition: the cumulative scale must increase STRICTLY for the differenced bounds to enclose the estimate strictly
+        # (the series container rejects 'bound == estimate' as well); a plateau s_t == s_{t-1} is the boundary of the same defect
+        mono = bool(np.all(np.diff(sc_) > 1e-12 * sc_[1:].max()))
     try:
         ts = m.estimate_pointwise_and_cumulative_effect(metric, level=case['level'], tails=case['tails'])
     except Exception as e:
